@@ -906,6 +906,9 @@ func init() {
 			"monitors: process liveness (crash signature + resumption after the crashing input), a canary (RTMP publish+play and an RTSP DESCRIBE of a background stream) after every group, and an idle-CPU monitor at the same points: with no input in flight the process's own CPU time (getrusage) over 0.2 s and, if above half a core, over two further 0.7 s windows must stay below half a core - a session that spins instead of ending is reported with the running lal functions. cell = surface/input class.",
 		Assumptions: []string{"an error reply, a closed session or a kept-open session are all fine; only process death / failing canary is judged"},
 		MinCells:    12,
+		// the surface of a case is chosen by i mod 8: with 16 children every hostile-upstream case (thousands of scripted
+		// replies each) would land in the same two children; 15 spreads them
+		Batches: func(string) int { return 15 },
 		Run: func(c *fw.Ctx, i int) {
 			s := crashServer(c, c13ConfFor(i))
 			if s == nil {
